@@ -365,6 +365,7 @@ def run(ctx: Ctx, tier: str) -> Result:
     borrow(ctx, res, tier, "c11", ("C11.ISOLATE",), "C03.ISOLATE", "a tracepoint that cannot be interpreted does not keep the others of the response from acting")
     borrow(ctx, res, tier, "c15", ("C15.ONCE", "C15.THREAD"), "C03.DEFER", "the deferred part of an action is carried out by the event that ends the invocation that was hit, in its thread - "
            "a context that is put back after it was processed, or a queue shared between threads, lets another event (a later call, another thread's return) cause the action")
+    borrow(ctx, res, tier, "c12", ("C12.ORDER",), "C03.PUBLISH", "the configuration published last is the latest one (read and publication are one critical section)")
     return res
 
 
